@@ -777,6 +777,14 @@ static void h_schema_opt(h_schema *sc, const char **pp, cfg_opt_t *o)
 					  !strcmp(kind, "ptrl") ? CFGT_PTR : CFGT_NONE;
 				o->def.parsed = h_sstr(sc, t);
 				defparse = o->type == CFGT_PTR;
+			} else if (!strcmp(kind, "sint")) {	/* CFG_SIMPLE_INT: the value lives in a user variable */
+				static long h_simple_vars[64];
+				static unsigned int h_simple_next;
+				long *var = &h_simple_vars[h_simple_next++ % 64];
+
+				o->type = CFGT_INT;
+				*var = h_tok_long(t);
+				o->simple_value.number = var;
 			} else if (!strcmp(kind, "int")) {
 				o->type = CFGT_INT;
 				o->def.number = h_tok_long(t);
